@@ -1,3 +1,5 @@
+#[cfg(feature = "verif_hooks")]
+use crate::verif_fs::std_shim as std;
 use std::{borrow::Cow, fs::File, io::Read, ops::Deref};
 
 use crate::context::{MODIFIER_ALT_GR, MODIFIER_SHIFT};
